@@ -38,6 +38,8 @@ impl<'a> WordIdTable<'a> {
 
     #[inline]
     pub fn entries(&self, index: usize) -> WordIdIter {
+        #[cfg(feature = "verif")]
+        crate::verif::wid_table_access(index, self.offset, self.size as usize, self.bytes.len());
         debug_assert!(index < self.bytes.len());
         let ptr = unsafe { self.bytes.as_ptr().offset((index + self.offset) as isize) };
         let cnt = unsafe { ptr.read() } as usize;
